@@ -203,6 +203,12 @@ def mutations(base):
         meta_mut(key, setkey(["ovni", "nranks"], 0), "meta-altered", "ovni.nranks=0")
         if mates:
             meta_mut(key, setkey(["ovni", "nranks"], 9), "meta-altered", "ovni.nranks differs from the sibling threads'")
+        # rank information removed from every thread of one process while its sibling processes keep theirs
+        def strip_rank(m):
+            m["ovni"].pop("rank", None); m["ovni"].pop("nranks", None)
+        if any(k[0] == key[0] and k[1] != key[1] for k in keys) and key == proc_threads[(key[0], key[1])][0]:
+            meta_mut(key, strip_rank, "meta-removed", "ovni.rank and nranks removed from the whole process %d (other processes "
+                     "of the loom keep theirs)" % key[1], also=mates)
         meta_mut(key, setkey(["ovni", "rank"], 8), "meta-altered", "ovni.rank >= nranks")
         meta_mut(key, setkey(["ovni", "rank"], -1), "meta-altered", "ovni.rank negative")
         meta_mut(key, lambda m: "{ \"version\": 3, \"ovni\": ", "meta-unparsable", "JSON syntax broken")
